@@ -68,6 +68,17 @@ func TestVfC17UpstreamAuth(t *testing.T) {
 			uc.Tls.CA = "$DIR/ca.pem"
 		}
 		cfg := &Config{Servers: StdServers(pip, []string{"udp"}, ""), Upstreams: []UpstreamCfg{uc}, Rules: []Rule{{Forward: "up"}}}
+		// a sibling in the same configuration that names the same files but sets the opposite option: every tls block
+		// stands for itself
+		sibling := rapid.SampledFrom([]string{"none", "before", "after"}).Draw(t, "siblingUpstream")
+		if sibling != "none" {
+			sib := UpstreamCfg{Tag: "sib", Addr: addr, DialAddr: uc.DialAddr, Tls: &TlsCfg{InsecureSkipVerify: !insecure, CA: uc.Tls.CA}}
+			if sibling == "before" {
+				cfg.Upstreams = []UpstreamCfg{sib, uc}
+			} else {
+				cfg.Upstreams = []UpstreamCfg{uc, sib}
+			}
+		}
 		p, err := StartProxy(cfg.YAML(), map[string]string{"ca.pem": string(ca.CertPEM), "sys.pem": string(sysCA.CertPEM)}, ProxyOpts{Env: []string{"SSL_CERT_FILE=$DIR/sys.pem", "SSL_CERT_DIR=$DIR/no-such-dir"}})
 		if err != nil {
 			t.Fatalf("%v", err)
@@ -89,7 +100,7 @@ func TestVfC17UpstreamAuth(t *testing.T) {
 		r := res.Resps[0].Msg
 		// the configured CA replaces the system roots; without one the system roots decide
 		shouldTrust := insecure || (situation == "valid" && caConfigured) || (situation == "system-ca" && !caConfigured)
-		desc := fmt.Sprintf("upstream %s, certificate %s, ca configured %v, insecure_skip_verify %v", addr, situation, caConfigured, insecure)
+		desc := fmt.Sprintf("upstream %s, certificate %s, ca configured %v, insecure_skip_verify %v (sibling upstream with the opposite option: %s)", addr, situation, caConfigured, insecure, sibling)
 		dnsQueries := 0
 		for _, q := range up.Queries() {
 			if q.Msg.Err == nil && len(q.Msg.Q) == 1 {
@@ -137,6 +148,23 @@ func TestVfC17ClientCert(t *testing.T) {
 		srv := ServerCfg{Tag: kind, Protocol: kind, Listen: fmt.Sprintf("%s:%d", pip, ListenerPorts[kind]),
 			Tls: &TlsCfg{Cert: "$DIR/cert.pem", Key: "$DIR/key.pem", CA: "$DIR/ca.pem", VerifyClientCert: verify}}
 		cfg := &Config{Servers: []ServerCfg{srv}, Upstreams: []UpstreamCfg{{Tag: "up", Addr: up.Addr()}}, Rules: []Rule{{Forward: "up"}}}
+		// siblings naming the same certificate / key / CA files with the opposite (or no) client verification
+		sibling := rapid.SampledFrom([]string{"none", "listener-before", "listener-after", "upstream"}).Draw(t, "sibling")
+		switch sibling {
+		case "listener-before", "listener-after":
+			sib := srv
+			sib.Tag, sib.Listen = "sib", fmt.Sprintf("%s:%d", pip, ListenerPorts[kind]+100)
+			t2 := *srv.Tls
+			t2.VerifyClientCert = !verify
+			sib.Tls = &t2
+			if sibling == "listener-before" {
+				cfg.Servers = []ServerCfg{sib, srv}
+			} else {
+				cfg.Servers = []ServerCfg{srv, sib}
+			}
+		case "upstream":
+			cfg.Upstreams = append(cfg.Upstreams, UpstreamCfg{Tag: "sib", Addr: "tls://" + block + "3:853", Tls: &TlsCfg{Cert: "$DIR/cert.pem", Key: "$DIR/key.pem", CA: "$DIR/ca.pem"}})
+		}
 		p, err := StartProxy(cfg.YAML(), map[string]string{"cert.pem": string(server.CertPEM), "key.pem": string(server.KeyPEM), "ca.pem": string(ca.CertPEM), "sys.pem": string(sysCA.CertPEM)}, ProxyOpts{Env: []string{"SSL_CERT_FILE=$DIR/sys.pem", "SSL_CERT_DIR=$DIR/no-such-dir"}})
 		if err != nil {
 			t.Fatalf("%v", err)
@@ -164,7 +192,7 @@ func TestVfC17ClientCert(t *testing.T) {
 		res := a.Ask(kind, Query(9, vfkit.Name{[]byte("client"), []byte("c17"), []byte("test")}, 1, 1, false), 3*time.Second, 0)
 		served := len(res.Resps) >= 1
 		want := !verify || client == "valid"
-		desc := fmt.Sprintf("listener %s verify_client_cert=%v client certificate %s: served=%v err=%v status=%d", kind, verify, client, served, res.Err, res.Status)
+		desc := fmt.Sprintf("listener %s verify_client_cert=%v client certificate %s (sibling tls block with the same files: %s): served=%v err=%v status=%d", kind, verify, client, sibling, served, res.Err, res.Status)
 		if served && !want {
 			t.Fatalf("a DNS response was served to a client without a certificate from the configured CA; %s", desc)
 		}
